@@ -15,7 +15,8 @@ FA_NAMES = {"int": [0, 1, 2], "str": ["q0", "q1", "q2"], "odd": ["q 0", "q\"1'",
 FA_SYMS = {"ab": ["a", "b"], "odd": ["a b", "α"], "num": [1, "1"]}
 CFG_SPELL = {"plain": (["S", "A", "B"], ["a", "b"]), "lowervar": (["S", "x", "y1"], ["a", "b"]),
              "capter": (["S", "A", "B"], ["Xa", "B1"]), "both": (["S", "x", "y1"], ["Xa", "B1"]),
-             "same": (["S", "A", "B"], ["A", "b"])}
+             "same": (["S", "A", "B"], ["A", "b"]), "samelower": (["S", "a", "y1"], ["a", "b"]),
+             "startlower": (["a", "S", "y1"], ["a", "b"]), "nonascii": (["S", "A", "B"], ["Ölaf", "Ωb"])}
 
 
 def ebnf_bodies():
@@ -75,7 +76,8 @@ class C20(Prop):
                     Layer("FA(3,2,<=2)", fa(lambda: GF.fa_cases(3, 2, 0, 2)), policies=nat),
                     Layer("PDA(2,2,2,<=2)/7", lambda: (("pda", c) for k, c in enumerate(GP.pda_cases(2, 2, 2, 0, 2)) if k % 7 == 0), policies=nat),
                     Layer("FST(2,<=2)", lambda: (("fst", c) for c in GT.fst_cases(2, 0, 2)), rep=lambda c: GT.is_rep(c[1]), policies=nat),
-                    Layer("CFG(2,2,2,<=3) text", lambda: (("cfg", c) for c in GC.cfg_cases(2, 2, 2, 0, 3)), rep=lambda c: GC.is_rep(c[1]), policies=nat),
+                    Layer("CFG(2,2,2,<=3) text", lambda: (("cfg", c) for c in GC.cfg_cases(2, 2, 2, 0, 3)), rep=lambda c: GC.is_rep(c[1]),
+                          policies=nat + ["1", "2", "3"]),
                     Layer("EBNF 1 line", lambda: ebnf_cases(1), policies=nat),
                     Layer("EBNF 2 lines", lambda: ebnf_cases(2), policies=nat),
                     Layer("EBNF 3 lines /97", lambda: ebnf_cases(3, 97), policies=nat)]
@@ -156,6 +158,32 @@ class C20(Prop):
                 if (before.states, before.starts, before.finals, before.trans) != \
                         (after.states, after.starts, after.finals, after.trans):
                     ctx.fail("C20.fa.roundtrip", names=scheme, symbols=symset, before=before.describe(), after=after.describe())
+                if scheme == "int" and symset == "ab":
+                    self._export_twice(ctx, m, a, nm)
+                    if O.case_kind(c) == "dfa":
+                        d = ctx.call(O.build_fa, c, "dfa", "int")
+                        if ctx.returns(d, "C20.fa.build"):
+                            self._export_twice(ctx, m, d.value, nm, only_start=True)
+
+    @staticmethod
+    def _export_twice(ctx, m, a, nm, only_start=False):
+        """the machine is exported, changed through its public mutators, and exported again: the second export must
+        describe the machine as it is now"""
+        ctx.call(a.to_networkx)
+        a.add_start_state(nm[-1])
+        if not only_start:      # (one mutator alone, so that a cache cleared by another one cannot hide a stale export)
+            a.add_final_state(nm[0])
+            a.add_transition(nm[0], "b", nm[-1]) if not a(nm[0], "b") else None
+        before = O.extract_fa(a)
+        g = ctx.call(a.to_networkx)
+        if ctx.returns(g, "C20.fa.to_networkx", second=True):
+            b = ctx.call(m.EpsilonNFA.from_networkx, g.value)
+            if ctx.returns(b, "C20.fa.from_networkx", second=True):
+                after = O.extract_fa(b.value)
+                if (before.states, before.starts, before.finals, before.trans) != \
+                        (after.states, after.starts, after.finals, after.trans):
+                    ctx.fail("C20.fa.roundtrip", what="second export after a change", cls=type(a).__name__,
+                             before=before.describe(), after=after.describe())
 
     def _pda(self, c, ctx):
         m = O.pdamod()
